@@ -135,8 +135,19 @@ func (r *Router) notFound(c *C) error {
 }
 
 // Serve serves the incoming context. It returns Miss if the path hits
-// nothing and Default() is not set.
+// nothing and Default() is not set. When it returns Miss, the routing
+// position of the context is left as it was given, so that a service that
+// is tried next routes on the same path.
 func (r *Router) Serve(c *C) error {
+	pos := c.routePos
+	err := r.serve(c)
+	if err == Miss {
+		c.routePos = pos
+	}
+	return err
+}
+
+func (r *Router) serve(c *C) error {
 	rel := c.Rel()
 	if rel == "" {
 		if r.index == nil {
